@@ -51,8 +51,12 @@ def _gen_module(ctx):
             f"GenRows == DefaultRows \\cup {{{', '.join(rows)}}}\n====\n")
 
 
-def _build(sc, rows):
-    """The torch SDE of a scenario, its AdjointSDE (as adjoint.py builds it) and the augmented state for `rows`."""
+def _build(sc, rows, shared=False):
+    """The torch SDE of a scenario, its AdjointSDE (as adjoint.py builds it) and the augmented state for `rows`.
+    shared: the SDE also supplies `f_and_g`, computing drift and diffusion from ONE shared intermediate autograd node
+    that saves tensors (as a network with a shared hidden layer does, or the library's own logqp wrapper): the
+    prescribed quantities are the same (C16), but the adjoint's two vector-Jacobian products then walk through a
+    common part of the graph."""
     import torch
     from harness import sderef as sr
     from torchsde._core import base_sde
@@ -89,7 +93,14 @@ def _build(sc, rows):
             return [self.A[0, 0], self.A[0, 1], self.A[1, 0], self.A[1, 1], self.unused[0], self.unused[1],
                     self.sub.c[0], self.sub.c[1]]
 
-    sde = ParamSDE()
+    if shared:
+        class SharedSDE(ParamSDE):
+            def f_and_g(self, t, y):
+                z = y * torch.ones_like(y)          # exact; the multiplication saves its operands for backward
+                return ParamSDE.f(self, t, z), ParamSDE.g(self, t, z)
+        sde = SharedSDE()
+    else:
+        sde = ParamSDE()
     params = [p for p in sde.parameters() if p.requires_grad]          # as sdeint_adjoint does
     names = {id(p): n for n, p in sde.named_parameters()}
     order = [names[id(p)] for p in params]
@@ -182,6 +193,19 @@ def check_group(group):
             add(fn, tag + "/no_grad", o.shape == y_aug.shape and _close(o, expect[WHICH[fn]]),
                 f"got {o.flatten().tolist()} want {expect[WHICH[fn]]}")
             add(fn, "no_graph", o.grad_fn is None and not o.requires_grad, "output carries a graph under no_grad")
+        # ---- the same SDE supplying f_and_g with a shared intermediate node: same prescribed quantities
+        for mode in ("no_grad", "grad"):
+            try:
+                _, adj_s, _, order_s, y_aug_s = _build(sc0, rows, shared=True)
+                with (torch.no_grad() if mode == "no_grad" else torch.enable_grad()):
+                    outs_s = calls(adj_s, t, y_aug_s, v, v2, diag)
+            except Exception as e:
+                add("call", "exception", False, f"f_and_g with a shared intermediate, {mode}: {type(e).__name__}: {e}"[:300])
+                continue
+            exp_s = {k: _layout([sr.fr_list(r[k]) for r in rows], order_s) for k in ("F", "GP", "MIL")}
+            for fn, o in outs_s.items():
+                add(fn, tag + "/shared_f_and_g/" + mode, o.shape == y_aug_s.shape and _close(o, exp_s[WHICH[fn]]),
+                    f"got {o.flatten().tolist()} want {exp_s[WHICH[fn]]}")
         if len(rows) > 1:
             continue
         # ---- gradients enabled: same values, and one further derivative
